@@ -162,7 +162,8 @@ every `set_status(≥ Stopping)` on one cell is issued by ONE thread of control 
 and `Stopped` only after that thread's own `≥ Stopping` call has returned -/
 def disc (s : State) : Op → Bool
   | .publish a t st =>
-    (s.cell a).remote ||
+    -- (a call that is not enabled — no reference yet, or `t` already inside `set_status` on `a` — is no call)
+    (s.cell a).remote || !(s.cell a).born || decide (s.thr a t ≠ .idle) ||
       decide (stopping ≤ st → (((s.cell a).el = none ∨ (s.cell a).el = some t) ∧ (st = stopped → stopping ≤ s.done a t)))
   | _ => true
 
